@@ -11,14 +11,14 @@ import e2check
 def runs(rng, tier):
     out = []
     if tier == 'thorough':
-        for k in range(150):
+        for k in range(360):
             out.append([rng.below(1 << 30), rng.choice([0, 50, 200, 400]), 1 + rng.below(5), rng.choice([2, 4, 8])])
-        for k in range(30):   # the stop()-entered-before-finalize style, forced
+        for k in range(60):   # the stop()-entered-before-finalize style, forced
             out.append([rng.below(1 << 30), rng.choice([0, 100, 300]), 1 + rng.below(3), rng.choice([3, 6]), 1])
     else:
-        for k in range(14):
+        for k in range(40):
             out.append([rng.below(1 << 30), rng.choice([0, 100, 300]), 1 + rng.below(4), rng.choice([2, 4, 6])])
-        for k in range(4):
+        for k in range(8):
             out.append([rng.below(1 << 30), rng.choice([0, 100]), 1 + rng.below(2), rng.choice([3, 5]), 1])
     return out
 
